@@ -227,9 +227,16 @@ class FaultError(Exception):
     pass
 
 
+RAISE_KINDS = {"raise": None, "raise-attr": AttributeError, "raise-value": ValueError, "raise-type": TypeError,
+               "raise-key": KeyError, "raise-zero": ZeroDivisionError, "raise-stop": StopIteration,
+               "raise-runtime": RuntimeError}
+
+
 def do_fault(kind):
     if kind == "raise":
         raise FaultError("injected callback failure")
+    if kind in RAISE_KINDS:
+        raise RAISE_KINDS[kind]("injected callback failure")
     if kind == "none":
         return None
     if kind == "str":
@@ -238,6 +245,12 @@ def do_fault(kind):
         return 1
     if kind == "list":
         return []
+    if kind == "float":
+        return 0.5
+    if kind == "nonempty-list":
+        return [False]
+    if kind == "truthy-str":
+        return "invalid"
     if kind == "false":
         return False
     raise ValueError(kind)
@@ -817,7 +830,8 @@ def run_c19(tier):
 @st.composite
 def fault_plan(draw, sc):
     where = draw(st.sampled_from(["validity", "validity", "goal"]))
-    kinds = ["raise", "none", "str", "int", "list"]
+    kinds = ["raise", "none", "str", "int", "list", "raise-attr", "raise-value", "raise-type", "raise-key",
+             "raise-zero", "raise-stop", "raise-runtime", "float", "nonempty-list", "truthy-str"]
     kind = draw(st.sampled_from(kinds))
     if draw(st.booleans()):
         return {"where": where, "kind": kind, "at": draw(st.integers(0, 39))}
@@ -892,7 +906,7 @@ def run_c20(tier):
     stats = Stats("C20", tier)
     n = 300 if tier == "quick" else 4000
     rule = ("Hypothesis-generated C19 scenarios (all four planners, six variants) plus a fault plan: the validity callback or the goal's "
-            "is_satisfied fails (raise / return None / 'yes' / 1 / []) on every state inside a fault region (ball in the space's metric) or "
+            "is_satisfied fails (raises one of eight exception types / returns None / 'yes' / 'invalid' / 1 / 0.5 / [] / [False]) on every state inside a fault region (ball in the space's metric) or "
             "at its k-th call, k < 40. Run A uses the failing callbacks, run B callbacks that return False at exactly those points, same seed: "
             "outcome and path must be identical bit for bit, and no state of A's path may be one on which the callback failed. PRM (wall-clock "
             "roadmap) is checked for the second clause only. Non-trivial = the fault was reached and run B differs from the fault-free run.")
